@@ -138,7 +138,10 @@ fn has_close(p: &StdPair, node: usize, at: Duration) -> bool {
 fn run_case(base: Instant, c: &Case, dump: bool) -> Out {
     let r = guarded(|| {
         let cfg = cfg_named(&c.cfg);
-        let mut p = std_pair_pre(base, &cfg, c.wl, ReadMode::default(), |w| w.keep_data = true);
+        let mut p = std_pair_pre(base, &cfg, c.wl, ReadMode::default(), |w| {
+            w.keep_data = true;
+            w.linger_dead = true;
+        });
         let mut lives: BTreeMap<(usize, usize), Life> = BTreeMap::new();
         let mut closed_at: Option<Duration> = None;
         let mut close_emitted = true;
@@ -331,6 +334,9 @@ fn run_case(base: Instant, c: &Case, dump: bool) -> Out {
                 ));
             }
             // (4) after draining: endpoint forgot the connection, and its identifiers do not route
+            if let Some(o) = p.w.post_drain_output.first() {
+                v.push(("activity-after-drained".into(), format!("a connection that had emitted its final Drained notification still produced: {o} ({} items)", p.w.post_drain_output.len())));
+            }
             let all_drained = [SERVER, CLIENT].iter().all(|n| p.w.nodes[*n].conns.is_empty());
             if all_drained && c.kind != Kind::None {
                 for node in [SERVER, CLIENT] {
